@@ -216,7 +216,7 @@ def model_check(ctx, kd, quick):
     """Design level: the ideal machine satisfies everything the judge demands; the as-is machine does not, and its
     refuting programs (witnesses of the known findings) are replayed on the real code."""
     invs = ["JudgeAccepts", "InvEntry", "InvBytes", "InvBooks", "InvGhost"]
-    ideal = [("bounds", 4 if quick else 5, dict(Policies=["lru", "ttl"], MaxE=[1, 2] if quick else [1, 2, 3], MaxB=[0, 1, 4])),
+    ideal = [("bounds", 4 if quick else 5, dict(Policies=["lru", "ttl"], MaxE=[1, 2] if quick else [1, 2, 3], MaxB=[0, 4] if quick else [0, 1, 4])),
              ("memttl", 5 if quick else 6, dict(Policies=["lru"], MaxE=[1, 2], DTtl=["none", "short"])),
              ("disk", 5 if quick else 6, dict(DTtl=["none", "short"]))]
     for fam, depth, grid in ideal:
@@ -300,13 +300,27 @@ def selftest(ctx, trace, kd):
     res = {"corrupt_returned_value_flagged": (ia + 1) in out["a"]["violations"] and (ia + 1) not in base,
            "drop_one_event_flagged": (ib + 1) in out["b"]["violations"] and out["b"]["nviol"] > out["0"]["nviol"],
            "corrupt_books_flagged": (ic + 1) in out["c"]["violations"] and (ic + 1) not in base}
-    # (d) without the listed deviations the monitor must reject what they explain (the signatures are not vacuous)
-    if kd and out["0"]["deviations"]:
-        v = lib.tlc_trace(ctx, MODULE_T, t_cfg(ctx, [], "t_cache_nodev.cfg"), ctx.path("selftest_0.ndjson"))
-        res["deviations_rejected_when_not_listed"] = v["nviol"] >= sum(d[2] for d in out["0"]["deviations"]) > 0
     ctx.cov["binding_selftest"] = res
     if not all(res.values()):
         raise lib.ToolError(f"binding self-test failed: {res}")
+
+
+def selftest_signatures(ctx, trace, kd):
+    """(d) the deviation signatures are not vacuous: with KnownDeviations = {} the monitor rejects exactly what they explained."""
+    lines = lib.read_lines(trace)[:20000]
+    while lines and not lib.is_new(lines[-1]):
+        lines.pop()
+    lines.pop()
+    p = ctx.path("selftest_d.ndjson")
+    open(p, "w").write("\n".join(lines) + "\n")
+    with_kd = lib.tlc_trace(ctx, MODULE_T, t_cfg(ctx, kd), p)
+    without = lib.tlc_trace(ctx, MODULE_T, t_cfg(ctx, [], "t_cache_nodev.cfg"), p)
+    explained = sum(d[2] for d in with_kd["deviations"])
+    ok = explained > 0 and with_kd["nviol"] == 0 and without["nviol"] == explained
+    ctx.cov["binding_selftest"]["deviations_rejected_when_not_listed"] = ok
+    ctx.cov["binding_selftest"]["deviation_events_in_sample"] = explained
+    if not ok:
+        raise lib.ToolError(f"signature self-test failed: explained={explained} violations with/without the listed deviations: {with_kd['nviol']}/{without['nviol']}")
 
 
 def replay(ctx, kd):
@@ -341,7 +355,7 @@ def run(ctx):
         nrand, rlen = 300, 200
     else:
         plan = [("bounds", 4, dict(Policies=ALL_POLICIES, MaxE=[1, 2, 3], MaxB=[0, 1, 4])),
-                ("bounds", 5, dict(Policies=["lru", "fifo"], MaxE=[2, 3], MaxB=[4])),
+                ("bounds", 5, dict(Policies=["lru"], MaxE=[2, 3], MaxB=[4])),
                 ("memttl", 5, dict(Policies=["lru", "ttl"], MaxE=[1, 2], DTtl=["none", "short"])),
                 ("memttl", 6, dict(Policies=["lru"], MaxE=[2])),
                 ("disk", 5, dict(SubDirs=[True, False], DTtl=["none", "short"])),
@@ -349,13 +363,15 @@ def run(ctx):
         nrand, rlen = 3000, 300
     first = True
     for fam, depth, grid in plan:
-        n, dn, trace = gen_run_judge(ctx, fam, depth, grid, kd, keep_trace=first, shards=12 if fam == "bounds" else 32)
+        n, dn, trace = gen_run_judge(ctx, fam, depth, grid, kd, keep_trace=True, shards=12 if fam == "bounds" else 32)
         total += n
         distinct += dn
         if first:
             selftest(ctx, trace, kd)
-            os.remove(trace)
             first = False
+        if fam == "disk" and "F10b" in kd and ctx.known_seen.get("F10b"):
+            selftest_signatures(ctx, trace, kd)
+        os.remove(trace)
     # long random histories: larger capacities, key population 3x the capacity, byte budgets from 1 byte up
     trace = ctx.path("trace_random.ndjson")
     dump = ctx.path("prog_random.ndjson")
